@@ -336,6 +336,7 @@ type HarnessResult struct {
 	Unsupported []string          `json:"unsupported,omitempty"`
 	Faults      []string          `json:"engine_faults,omitempty"`
 	Inconcl     []string          `json:"inconclusive,omitempty"`
+	Traps       []string          `json:"traps_reached,omitempty"`
 	Reach       map[string]int    `json:"reach_labels"`
 	CEs         []CounterExample  `json:"counterexamples,omitempty"`
 	Samples     [][]ReplayItem    `json:"samples,omitempty"`
@@ -467,6 +468,9 @@ func (e *Engine) Explore(pkgPath, fnName string, b Bounds, nw int, machines []*M
 				for _, s := range res.Inconcl {
 					uniq(&hr.Inconcl, s)
 				}
+				for _, s := range res.Traps {
+					uniq(&hr.Traps, s)
+				}
 				for _, ce := range res.CEs {
 					if ceCount[ce.Label] < b.MaxCEs {
 						ceCount[ce.Label]++
@@ -533,6 +537,7 @@ func (m *Machine) runPath(fn *ssa.Function, pfx Prefix, b Bounds, solver *smt.So
 	m.funcsSeen = res.Funcs
 	m.stubsSeen = res.Stubs
 	m.tasks = nil
+	m.clock = 0
 	defer func() {
 		r := recover()
 		m.rollback()
